@@ -406,6 +406,10 @@ class SimThread(threading.Thread):
         me = threading.current_thread()
         if ds is not None and me in ds.state:
             with ds.cv:
+                if timeout is not None and ds.state.get(self) != "done" and not ds.aborting:
+                    # a join WITH a timeout may expire before the thread ends (the simulator has no clock: the adversary
+                    # lets every timed join expire at once).  The unchanged tree joins without a timeout.
+                    return
                 if ds.state.get(self) != "done":
                     ds.joiners.setdefault(self, []).append(me)
                     ds.state[me] = "blocked"
